@@ -1,11 +1,10 @@
 ---------------------------- MODULE MC_C14Exact ----------------------------
 EXTENDS C14_Exact
-\* a chain, a hyper label on three tensors with a tail, a tensor with three legs (one dangling)
+\* a chain; a label on three tensors, one with a dangling label; the same with a tail
 ShapesQ == << << <<"a">>, <<"a", "b">>, <<"b">> >>,
               << <<"a">>, <<"a">>, <<"a", "b">> >> >>
-ShapesT == ShapesQ \o << << <<"a">>, <<"a">>, <<"a", "b">>, <<"b">> >>,
-                         << <<"a", "b", "c">>, <<"a">>, <<"b">> >> >>
-ShapesS == << << <<"a">>, <<"a", "b">>, <<"b">> >> >>
+ShapesT == ShapesQ \o << << <<"a">>, <<"a">>, <<"a", "b">>, <<"b">> >> >>
+ShapesS == ShapesQ
 ValsQ == {1, 2}
-ValsT == {-1, 1, 2}
+ValsT == {-1, 2}
 =============================================================================
